@@ -25,7 +25,7 @@ def close_positions(thorough=False):
     out = []
     msg = jtext(obj(method="add", params=obj(path="v", value=[1, 2, 3]), id=9))
     frame = L.raw_frame(msg)
-    ks = range(0, len(frame) + 1) if thorough else list(range(0, 8)) + list(range(8, len(frame) + 1, 5))
+    ks = range(0, len(frame)) if thorough else list(range(0, 8)) + list(range(8, len(frame), 5))
     for how in ("eof", "rst"):
         for k in ks:
             st = population() + [
@@ -50,7 +50,7 @@ def close_positions(thorough=False):
                 st.append(("partial", 3, up[:k]))
             st += [(how, 3), ("quiesce",), ("eof", 0), ("eof", 1), ("eof", 2), ("quiesce",)]
             out.append(Scenario(st, name="close-http-%s-%d" % (how, k)))
-        kf = range(0, len(wsf) + 1) if thorough else list(range(0, 8)) + list(range(8, len(wsf) + 1, 6))
+        kf = range(0, len(wsf)) if thorough else list(range(0, 8)) + list(range(8, len(wsf), 6))
         for k in kf:
             st = population() + [
                 ("connect", 3, "ws", "remote6"),
